@@ -649,6 +649,10 @@ def reshape(ctx: Ctx):
 
 # --------------------------------------------------------------------------- 4
 def extraction(ctx: Ctx):
+    # the variant classes are chosen by the kinds of the slice's OWN rows and columns dimensions
+    from . import c06
+
+    c06.dispatch_dimension_uses(ctx)
     disp = LY.factory_dispatch(ctx, LY.MCM, "_BaseCubeCounts", PAIRS, lambda t: t == "cube.dimension_types[-2:]")
     for pair in PAIRS:
         picked = disp.get(pair)
